@@ -113,7 +113,7 @@ def run_rampg(torch, DUCCIO, n, s):
 
 def run_hist(torch, DUCCIO, sc, model_factory=None):
     """sc: {mode, n, t, mults|lossM, calls: [{e, c}]}; stub model unless model_factory is given."""
-    names = [f"m{i}" for i in range(len(sc["t"]))]
+    names = ["q", "b", "k"][:len(sc["t"])]                 # insertion order is not the alphabetical one
     targets = {nm: torch.tensor(float(t)) for nm, t in zip(names, sc["t"])}
     n = sc["n"]
     if sc["mode"] == "given":
@@ -165,7 +165,8 @@ def _val_rec(val):
 def run_life(torch, DUCCIO, sc, model=None):
     """One DUCCIO object called with (epoch, n_epochs) changing per call (sc['calls'] = [{e, n, d, c}]); next to every
     call a FRESH real regulariser with the same final strengths is asked for the same (costs, epoch, n_epochs)."""
-    names = [f"m{i}" for i in range(len(sc["t"]))]
+    # stub models: insertion order of the metric names is not the alphabetical one; real models: their own names
+    names = ["q", "b"][:len(sc["t"])] if model is None else [f"m{i}" for i in range(len(sc["t"]))]
 
     def targets():
         return {nm: torch.tensor(float(t)) for nm, t in zip(names, sc["t"])}
@@ -398,6 +399,28 @@ def run_attr(torch, DUCCIO, BaseRegularizer, variant, hist, model=None, poke=Non
     return tr
 
 
+# ------------------------------------------------------------------------------------- pairing strengths / targets
+PAIR_NAMES = {2: ["ops", "params"], 3: ["mem", "ops", "params"]}      # alphabetical; rank r -> PAIR_NAMES[k][r-1]
+
+
+def run_pair(torch, DUCCIO, sc, model=None, alpha_names=None):
+    """sc: {rank, s, t, c, e, n} in CALLER order. The targets dict is built in that insertion order with real metric
+    names whose alphabetical ranks are sc['rank']; final_strengths is the positional tuple."""
+    k = len(sc["rank"])
+    names = [(alpha_names or PAIR_NAMES[k])[r - 1] for r in sc["rank"]]
+    if sorted(range(k), key=lambda i: names[i]) != sorted(range(k), key=lambda i: sc["rank"][i]):
+        raise tlc.MachineryError("pair: names do not realise the requested alphabetical ranks")
+    targets = {}
+    for nm, t in zip(names, sc["t"]):
+        targets[nm] = torch.tensor(float(t))
+    reg = DUCCIO(targets, final_strengths=tuple(_f(torch, s_ * U) for s_ in sc["s"]))
+    mdl = model if model is not None else Stub(torch, dict(zip(names, sc["c"])))
+    val = reg(mdl) if (sc["e"], sc["n"]) == (1, 1) and sc.get("d") else reg(mdl, sc["e"], sc["n"])
+    cls, v, frac = _val_rec(val)
+    return {"k": "pair", "names": names, "rank": list(sc["rank"]), "s": list(sc["s"]), "t": list(sc["t"]),
+            "c": list(sc["c"]), "e": sc["e"], "n": sc["n"], "cls": cls, "v": v, "frac": frac}
+
+
 def random_hist(rng, allow_f17=True):
     n = rng.randint(1, 50)
     k = rng.randint(1, 3)
@@ -514,6 +537,17 @@ def run_real(torch, DUCCIO, BaseRegularizer, rng, n_hist):
             if costs[0] <= 40000:
                 traces.append(run_baseq(BaseRegularizer, form, kw, sM, sE, model, names[0], costs[0]))
                 scen.append({"kind": "baseq", "model": tag, "form": form, "c": costs[0], "nontrivial": True})
+        # pairing on the real model: targets dict built in both insertion orders, one metric above target
+        if len(names) == 2:
+            for rank_ in ([1, 2], [2, 1]):
+                cc = [costs[r - 1] for r in rank_]                       # caller order
+                for above in (0, 1):
+                    for e_, n_ in ((1, 1), (0, 4), (2, 4)):
+                        sc = {"kind": "pair", "model": tag, "rank": rank_, "s": [20000, 50000],
+                              "t": [c - 3 if i == above else c + 5 for i, c in enumerate(cc)], "c": cc,
+                              "e": e_, "n": n_, "d": False, "nontrivial": True}
+                        traces.append(run_pair(torch, DUCCIO, sc, model=model, alpha_names=sorted(names)))
+                        scen.append(sc)
         # BaseRegularizer attribute life cycle while the MASKS of the real model move between applications
         poke = _mask_poker(torch, model)
         if poke is not None and len(names) == 2 and costs[1] < 30000:
@@ -591,6 +625,7 @@ def run(tier: str, seed: int, replay=None) -> int:
         "'hist' traces use one n_epochs per object (ascending or arbitrary epochs); 'life' traces vary epoch AND n_epochs per call, with strengths 10^4*m*2^-10 and n_epochs dividing 19800 (exact in float32)",
         "history independence is decided against FRESH real regularisers built with the same final strengths (for derived strengths: DUCCIO.final_strengths read once after the first call)",
         "attribute life cycle: histories of at most 3 (thorough: 4) actions out of 13 per class on stub models (costs A/B), every application compared with the formula over the attributes READ BACK from the object at that moment and with a fresh object built from them; on real PIT models one fixed 13-action history with a channel mask moved between applications (BaseRegularizer only, value clauses only)",
+        "pairing: targets dicts of 2-3 real metric names (ops/params/mem) in every insertion order, pairwise distinct strengths (2,3,5 x 10^4 units in every arrangement), one or two metrics above target; equality with sum_i s[i]*excess_i is a property clause at epoch 0 and from half the schedule on, drift in between; 'hist' and 'life' traces use metric names whose insertion order is not alphabetical (q, b, k)",
         "BaseRegularizer with arbitrary decimal strengths: |value - strength*cost| <= 2e-2*10^sE + 1e-6*strength*cost (float32 round-off); default strength = the documented 1e-3",
         "strengths derived from task_loss are positive only for metrics above target at the first call; metrics below target then get strength 0 (outside 'positive final strengths': only finiteness, non-negativity and 'zero when within targets' are checked)",
         "real models: costs must be integer-valued (they are for params/ops/params_bit with hard selection); gradients on real models are only checked for finiteness",
@@ -607,6 +642,8 @@ def run(tier: str, seed: int, replay=None) -> int:
             tr = run_rampg(torch, DUCCIO, sc["n"], sc["s"])
         elif sc["kind"] == "hist":
             tr = run_hist(torch, DUCCIO, sc)
+        elif sc["kind"] == "pair":
+            tr = run_pair(torch, DUCCIO, sc)
         elif sc["kind"] == "attr" and "model" not in sc:
             tr = run_attr(torch, DUCCIO, BaseRegularizer, sc["variant"], sc["hist"])
         elif sc["kind"] == "life" and "model" not in sc:
@@ -634,7 +671,29 @@ def run(tier: str, seed: int, replay=None) -> int:
     R.design("RegLife", "RegLife_captured", workers=4, expect_ok=False)
     R.design("RegLife", "RegLife_lastcost", workers=4, expect_ok=False)
 
+    # pairing of positional strengths with named targets: every insertion order; 'sorted' pairing must fail
+    pdot = tempfile.mktemp(prefix="c19p-", suffix=".dot", dir=tlc.scratch())
+    pres = R.design("DuccioPair", "DuccioPair_quick", workers=4, dump_dot=pdot)
+    R.design("DuccioPair", "DuccioPair_sorted", workers=4, expect_ok=False)
+
     traces, scen = [], []
+    # ---- 2p. spec -> code: every pairing scenario on the real DUCCIO (stub model with real metric names)
+    pnodes, _, _ = tlc.parse_dot(pdot)
+    if len(pnodes) != pres.distinct:
+        raise tlc.MachineryError(f"dump has {len(pnodes)} states, TLC reported {pres.distinct}")
+    for stt in pnodes.values():
+        sc = dict(stt["sc"])
+        sc["kind"] = "pair"
+        sc["d"] = False
+        traces.append(run_pair(torch, DUCCIO, sc))
+        sc["nontrivial"] = list(sc["rank"]) != sorted(sc["rank"])
+        scen.append(sc)
+    for k_, rank_ in ((2, [2, 1]), (3, [3, 1, 2])):           # the default-argument call, README order params / ops
+        sc = {"kind": "pair", "rank": rank_, "s": [20000, 30000, 50000][:k_], "t": [10] * k_,
+              "c": [13] + [7] * (k_ - 1), "e": 1, "n": 1, "d": True, "nontrivial": True}
+        traces.append(run_pair(torch, DUCCIO, sc))
+        scen.append(sc)
+    R.extra["pairing_scenarios"] = len(pnodes) + 2
     # ---- 2a. spec -> code: every maximal attribute history on the real classes
     anodes, aedges, _ = tlc.parse_dot(adot)
     if len(anodes) != ares.distinct:
